@@ -26,7 +26,7 @@ RULE = ('(i) Exhaustive grid: every attribute (and time, and unknown / foreign a
 ASSUMPTIONS = ['skip_checks is never passed (excluded by the statement)', 'bool values are not generated',
                'NaN/inf times are not judged']
 
-OKEXC = (ValueError, TypeError, AttributeError)
+OKEXC = (ValueError, TypeError, AttributeError, BytesWarning)   # (BytesWarning: bytes value vs str under python -bb)
 
 
 def in_domain(name, enc, type_):
@@ -165,6 +165,18 @@ class Interp:
                 self.model = model
             self._expect(f'{entry} {t} {attrs}', ok, fn, on_ok, dict(entry=entry, type=t, attr=next(iter(attrs), '-')))
             self._check_state(f'{entry}')
+            return
+        if kind == 'newtype':
+            # the message type itself must be one of the documented type names
+            tv = dec(op[1])
+            try:
+                res = mido.Message(tv, time=0) if op[2] == 'ctor' else mido.Message.from_dict({'type': tv, 'time': 0})
+            except (ValueError, TypeError, AttributeError, LookupError):
+                return
+            except Exception as exc:  # noqa: BLE001
+                self._fail('wrong-exception', f'Message(type={op[1]!r}): {exc!r}', exc=exc_sig(exc))
+                return
+            self._fail('accepts-invalid', f'Message(type={op[1]!r}) accepted -> vars {vars(res)!r}', entry=op[2], attr='type')
             return
         if self.msg is None:
             return
@@ -483,6 +495,18 @@ def machine_shard(rec, shard):
 
 def main(ctx):
     ctx.check({'kind': 'alias'})
+    big_ok = T('tuple', [(i * 7) % 128 for i in range(20000)])
+    for bad_byte in (128, 200, 255, 256, -1):
+        big_bad = T('tuple', [(i * 7) % 128 for i in range(19999)] + [bad_byte])
+        big_bad2 = [bad_byte] + [(i * 7) % 128 for i in range(16384)]
+        for entry in ('ctor', 'from_dict'):
+            ctx.check({'ops': [['new', 'sysex', {'data': big_bad}, entry]], 'grid_edge': True}, sample=False)
+            ctx.check({'ops': [['new', 'sysex', {'data': big_bad2}, entry]], 'grid_edge': True}, sample=False)
+        ctx.check({'ops': [['new', 'sysex', {'data': big_ok}, 'ctor'], ['set', 'data', big_bad], ['copy', {'data': big_bad2}, True],
+                           ['iadd', big_bad], ['redict']], 'grid_edge': True}, sample=False)
+    for tval in (0x90, 0xB0, 0xF0, 0xF8, 0x80, T('float', 144.0), 0, 1, None, T('tuple', ['note_on']), ['note_on'], 'Note_On', ''):
+        ctx.check({'ops': [['newtype', tval, 'ctor']], 'grid_edge': True}, sample=False)
+        ctx.check({'ops': [['newtype', tval, 'from_dict']], 'grid_edge': True}, sample=False)
     ctx.pmap('grid_shard', [(k, 16) for k in range(16)])
     ctx.exhaustive = True
     ctx.extra['exhaustive_scope'] = 'the attribute x value-pool x entry-point grid (finite by construction); histories sampled'
